@@ -101,7 +101,9 @@ _GRAPH_EXPL = ('contract-based deductive verification of the core mutators: Task
 PROPS.update({
     'C01': P('other', _GRAPH_EXPL, _GRAPH_B, _GRAPH_TRUST, design_ref='8/C01'),
     'C05': P('other', _GRAPH_EXPL + 'C05: WBS.tasks is proved to be the depth-first listing of the tasks below the hidden root, each member once (WBS.tasks -> Task.all_children -> the recursive generator, each unit against the callee contract); '
-             'WBS.__getitem__ returns a member with the id / raises exactly when there is none. The id-clash test is an assumed contract (_has_id_intersection as a function of the pre-state): uniqueness itself (U1) is decided by the bounded stand-in.',
+             'WBS.__getitem__ returns a member with the id / raises exactly when there is none. Uniqueness itself (U1: two different tasks of one tree never share an id) is proved to be preserved by Task.parent.setter - the operation every attach / move / adopt goes through - in a unit of its own (`Task.parent.setter[ids]`, '
+             'root-of-tree function with the Lean lemmas R1-R3, lemma chain) and carried through _ChildrenList.append / insert; the id-clash test itself (_has_id_intersection) is an assumed contract whose meaning is taken from the property; '
+             'for the children setter (whose attach loop re-joins kept subtrees without an id test) and the constructors U1 is decided by the bounded stand-in.',
              _GRAPH_B, _GRAPH_TRUST + ['WBS.__getitem__ is proved to return a member with the id / raise exactly when there is none, given the listing of all_children'], design_ref='8/C05'),
     'C11': P('other', _GRAPH_EXPL + 'C11: W1 (owner constant along the hierarchy), W1r (a task reports WBS X only if it is reachable from X\'s hidden root) and WR proved for re-parenting incl. subtree adoption; release paths (remove, assignments) bounded.',
              _GRAPH_B, _GRAPH_TRUST, design_ref='8/C11'),
